@@ -4,6 +4,7 @@ instrumented middlewares and error handlers, and the shared oracles of C01 / C02
 from __future__ import annotations
 
 import asyncio
+import inspect
 import json
 from typing import Any, Callable, Dict, List, Optional, Tuple
 
@@ -26,6 +27,19 @@ METHOD_MODELS = {name: R.MethodModel(SIGNATURES[name], BODIES[name], VALIDATED[n
                                      internal=name in INTERNAL)
                  for name in BODIES}
 
+
+def _ref_whoami(tok):            # the context is injected, the caller passes the token only
+    from . import service as _svc
+    return [tok, _svc.CURRENT_CONTEXT_MARK[0]]
+
+
+def _ref_whoami_explicit(tok, ctx):   # no context: ``ctx`` is whatever JSON value the caller passed
+    return [tok, None]
+
+
+METHOD_MODELS['whoami'] = R.MethodModel(inspect.signature(_ref_whoami), _ref_whoami)
+METHOD_MODELS['whoami_explicit'] = R.MethodModel(inspect.signature(_ref_whoami_explicit), _ref_whoami_explicit)
+
 ELEMENT_IDS: List[Any] = [1, 0, -1, 2, 3, 'abc', '', '1', 2 ** 62, 'id-é', 7, '0', -7, 'x']
 
 
@@ -38,7 +52,7 @@ def gen_element(ch: Choices, tok: str, id_: Any, notification: bool, exotic: boo
         c = None
         for _ in range(8):
             c = gen.logical_call(ch, tok, allow_fail=kind != 'ok', allow_notification=False,
-                                 extra_codes=(0,), extra_messages=('',), exotic=exotic)
+                                 extra_codes=(0,), extra_messages=('',), exotic=exotic, ctx_methods=True)
             is_fail = c.method.startswith('fail')
             if (kind == 'ok' and not is_fail) or (kind == 'proto' and c.method in ('fail_proto', 'fail_typed')) or \
                     (kind == 'exc' and c.method == 'fail_exc'):
@@ -58,6 +72,12 @@ def gen_element(ch: Choices, tok: str, id_: Any, notification: bool, exotic: boo
         ], 'el.nobind')
         if not el['params'] and ch.draw(2, 'el.noparams'):
             del el['params']
+        if ch.flag(1, 5, 'el.nobind.ctx'):
+            # the context parameter belongs to the library where it is injected, and to the caller where it is not
+            el = ch.choice([{'jsonrpc': '2.0', 'method': 'whoami', 'params': [tok, 'me']},
+                            {'jsonrpc': '2.0', 'method': 'whoami', 'params': {'ctx': 'me', 'tok': tok}},
+                            {'jsonrpc': '2.0', 'method': 'whoami_explicit', 'params': [tok]},
+                            {'jsonrpc': '2.0', 'method': 'whoami_explicit', 'params': {'tok': tok}}], 'el.nobind.ctx.el')
         if ch.flag(1, 4, 'el.nobind.kwonly'):
             # keyword-only parameters given by position: as many values as the method has parameters, but they do not bind
             el = {'jsonrpc': '2.0', 'method': 'kwonly',
@@ -570,7 +590,7 @@ def normalise_expected_execs(execs: List[Tuple[str, Any]]) -> List[Tuple[str, An
     """Reference executions (method, params as list or dict) -> (method, name->value mapping)."""
     out = []
     for m, p in execs:
-        sig = SIGNATURES[m]
+        sig = METHOD_MODELS[m].signature
         b = sig.bind(*(p if isinstance(p, list) else []), **(p if isinstance(p, dict) else {}))
         out.append((m, json.loads(json.dumps(dict(b.arguments)))))
     return out
